@@ -145,6 +145,19 @@ type appendElem struct {
 func (c *Ctx) appendChain(v ssa.Value) (ssa.Value, []appendElem, bool) {
 	call, ok := v.(*ssa.Call)
 	if !ok {
+		// a slice literal []T{a, b} as the innermost base: fresh, with its elements as the first appended group
+		if sl, isSl := v.(*ssa.Slice); isSl && sl.Low == nil && sl.High == nil {
+			if al, isAl := sl.X.(*ssa.Alloc); isAl && al.Comment == "slicelit" {
+				var elems []appendElem
+				for _, e := range arrayElems(al) {
+					if e == nil {
+						return v, nil, true
+					}
+					elems = append(elems, appendElem{Single: e})
+				}
+				return nil, elems, true
+			}
+		}
 		return v, nil, true
 	}
 	b, ok := call.Call.Value.(*ssa.Builtin)
